@@ -436,11 +436,22 @@ func (q *quarantine) skip(in *fuzzInput) bool {
 	if in.Args != nil && len(q.words) > 0 && q.words[wire.CommandWord(in.Args)] && nonFinite(in.Args) {
 		return true
 	}
-	if q.words["JSET"] && balloonIn(in) {
-		return true
+	// the two listed findings are exercised once per run: the first input of each
+	// class is sent, every later one is skipped (each observation costs a server
+	// and tens of seconds)
+	if balloonIn(in) {
+		if q.words["JSET"] {
+			return true
+		}
+		q.words["JSET"] = true
+		return false
 	}
-	if q.words["line-within-line"] && lineWithinLineIn(in) {
-		return true
+	if lineWithinLineIn(in) {
+		if q.words["line-within-line"] {
+			return true
+		}
+		q.words["line-within-line"] = true
+		return false
 	}
 	return false
 }
